@@ -378,6 +378,8 @@ func (e *c16Env) step(name string, addr int, kind int) {
 		op = sv.Choice(name+".op", 7)
 	case 1:
 		op = 7 + sv.Choice(name+".op", 4)
+	case 3: // the life of a self-destructing account: value in and out, Suicide, re-creation
+		op = []int{0, 1, 5, 6}[sv.Choice(name+".op", 4)]
 	default:
 		op = sv.Choice(name+".op", 14)
 	}
@@ -515,6 +517,37 @@ func SV_C16_snapshot_revert() {
 	e.compare("ops", a)
 	e.revert(sv.Choice("revertTo", len(e.snaps)))
 	e.compare("reverted", a)
+	e.finalise()
+	e.compare("finalised", a)
+}
+
+// SV_C16_suicide_sequence: what an account can live through inside one
+// transaction once SELFDESTRUCT is involved (its code keeps running until the
+// transaction ends): four operations from {AddBalance, SubBalance, Suicide,
+// CreateAccount} on one address, compared after each.
+//
+// sv:bounds accounts and amounts as SV_C16_snapshot_revert; quick: three operations from AddBalance / SubBalance (symbolic amounts) / Suicide / CreateAccount on one chosen address, compared after the third and after Finalise(true); thorough: four operations, compared after each from the second on, a snapshot after the second, reverted or not
+// sv:outside as SV_C16_snapshot_revert
+// sv:goal as SV_C16_snapshot_revert
+func SV_C16_suicide_sequence() {
+	e := c16NewEnv(true)
+	a := sv.Choice("addr", len(e.addrs))
+	e.step("s1", a, 3)
+	e.step("s2", a, 3)
+	if sv.Tier() > 0 {
+		e.compare("2", a)
+		e.snapshot()
+	}
+	e.step("s3", a, 3)
+	e.compare("3", a)
+	if sv.Tier() > 0 {
+		e.step("s4", a, 3)
+		e.compare("4", a)
+		if sv.Choice("revert", 2) == 1 {
+			e.revert(0)
+			e.compare("reverted", a)
+		}
+	}
 	e.finalise()
 	e.compare("finalised", a)
 }
